@@ -384,9 +384,59 @@ pub fn unsat_leaf_schemas() -> Vec<Value> {
     out
 }
 
+/// Keyword order around an in-place applicator: the compiler cuts a schema object into chunks at every
+/// `allOf` / `anyOf` / `$ref` / `const` / `enum` key and intersects the chunks, so keywords that are defined in
+/// terms of each other (additionalProperties vs properties / patternProperties, items vs prefixItems, minimum
+/// vs exclusiveMinimum, required vs properties) can end up in different chunks. Every base schema gets a
+/// *neutral* applicator (`allOf: [{}]`, `allOf: [{"type": T}]`, `anyOf: [{}]`, `$ref` to an empty definition)
+/// at every position of its key order: the language must not change.
+pub fn applicator_split_schemas() -> Vec<Value> {
+    let bases: Vec<(Value, &str)> = vec![
+        (json!({"type": "object", "patternProperties": {"^x-": {"type": "boolean"}}, "additionalProperties": false}), "object"),
+        (json!({"type": "object", "properties": {"a": {"type": "null"}}, "patternProperties": {"^x": {"type": "integer", "minimum": 1, "maximum": 2}}, "additionalProperties": false, "required": ["a"]}), "object"),
+        (json!({"type": "object", "properties": {"a": {"type": "boolean"}, "b": {"type": "null"}}, "required": ["b"], "additionalProperties": {"type": "integer", "minimum": 0, "maximum": 1}}), "object"),
+        (json!({"type": "object", "properties": {"a": {"type": "boolean"}}, "additionalProperties": false, "required": ["a"]}), "object"),
+        (json!({"type": "array", "prefixItems": [{"type": "boolean"}, {"type": "null"}], "items": {"type": "integer", "minimum": 0, "maximum": 1}, "minItems": 1, "maxItems": 3}), "array"),
+        (json!({"type": "array", "prefixItems": [{"const": "x"}], "items": false}), "array"),
+        (json!({"type": "integer", "minimum": 1, "maximum": 5, "multipleOf": 2}), "integer"),
+        (json!({"type": "number", "minimum": 1, "exclusiveMaximum": 2.5}), "number"),
+        (json!({"type": "string", "minLength": 1, "maxLength": 2}), "string"),
+    ];
+    let mut out = vec![];
+    for (base, ty) in bases.iter() {
+        let keys: Vec<(String, Value)> = base.as_object().unwrap().iter().map(|(k, v)| (k.clone(), v.clone())).collect();
+        let neutrals: Vec<(&str, Value)> = vec![
+            ("allOf", json!([{}])),
+            ("allOf", json!([{"type": ty}])),
+            ("anyOf", json!([{}])),
+            ("$ref", json!("#/$defs/any")),
+        ];
+        for (nk, nv) in neutrals.iter() {
+            for pos in 1..=keys.len() {
+                let mut m = serde_json::Map::new();
+                if *nk == "$ref" {
+                    m.insert("$defs".into(), json!({"any": {}}));
+                }
+                for (i, (k, v)) in keys.iter().enumerate() {
+                    if i == pos {
+                        m.insert(nk.to_string(), nv.clone());
+                    }
+                    m.insert(k.clone(), v.clone());
+                }
+                if pos == keys.len() {
+                    m.insert(nk.to_string(), nv.clone());
+                }
+                out.push(Value::Object(m));
+            }
+        }
+    }
+    out
+}
+
 /// all_schemas plus the pairwise intersection family
 pub fn all_schemas_x(small: bool) -> Vec<Value> {
     let mut v = all_schemas(small);
+    v.extend(applicator_split_schemas());
     v.extend(intersection_schemas(small));
     v.extend(ref_chain_schemas());
     v.extend(unsat_leaf_schemas());
